@@ -204,3 +204,23 @@ Theorem C07_core_sink_characterised : forall s,
   (forall z, parse_i64 s = Some z -> core_read_sink s = dec_of_Z z).
 Proof. exact core_sink_characterised. Qed.
 Print Assumptions C07_core_sink_characterised.
+
+(** WHERE + RETURN.  The loaded columns are the core fields, then the WHERE columns, then the remaining RETURN
+    fields; for every WHERE column set [fc], every RETURN list (any order, duplicates, unknown names, core
+    names) and both flows, the value under name n in the projection is the stored value of field n. *)
+Theorem C07_where_return_exact : forall (A : Type) (d : A) fc ret fields o1 o2 (ev : bytes -> A),
+  (forall name val,
+     In (name, val) (flow_row d (selection_columns_ret fc ret fields o1) (selection_columns_ret fc ret fields o1)
+                              (Some ret) fields ev) -> val = ev name) /\
+  (forall name val, In (name, val) (memtable_flow_row d fc ret fields o1 o2 ev) -> val = ev name).
+Proof. exact where_return_exact. Qed.
+Print Assumptions C07_where_return_exact.
+
+Theorem C07_where_return_example :
+  selection_columns_ret [f_b] [f_a; f_b] [f_a; f_b] [] =
+    [nth 0 core_fields []; nth 1 core_fields []; nth 2 core_fields []; nth 3 core_fields []; f_b; f_a] /\
+  memtable_flow_row 0%Z [f_b] [f_a; f_b] [f_a; f_b] [] [] ev_ab
+  = [(nth 0 core_fields [], 0%Z); (nth 1 core_fields [], 0%Z); (nth 2 core_fields [], 0%Z); (nth 3 core_fields [], 0%Z);
+     (f_a, 1%Z); (f_b, 2%Z)].
+Proof. exact where_return_example. Qed.
+Print Assumptions C07_where_return_example.
